@@ -192,6 +192,28 @@ SPLINE_THEOREMS = ["src_jacobian_numpy_eq", "src_predict_numpy_eq", "src_Spline_
                    "src_Spline_fit_rejects"]
 
 
+_VECTOR_PY = os.path.join("verde", "vector.py")
+VSPLINE_FUNCS = [(os.path.join("verde", "base", "utils.py"), "n_1d_arrays"), (os.path.join("verde", "coordinates.py"), "get_region"),
+                 (_SPLINE, "warn_weighted_exact_solution"), (_VECTOR_PY, "jacobian_2d_numpy"), (_VECTOR_PY, "predict_2d_numpy"),
+                 (_VECTOR_PY, "VectorSpline2D.jacobian"), (_VECTOR_PY, "VectorSpline2D.predict"), (_VECTOR_PY, "VectorSpline2D.fit")]
+VSPLINE_THEOREMS = ["src_jacobian_2d_numpy_eq", "src_predict_2d_numpy_eq", "src_VectorSpline2D_jacobian_eq",
+                    "src_VectorSpline2D_predict_eq", "src_VectorSpline2D_predict_unfitted", "src_VectorSpline2D_fit_eq",
+                    "src_VectorSpline2D_fit_rejects", "src_VectorSpline2D_fit_components"]
+VSPLINE_IMPORTS = "From Verde Require Import Model.Trend Proofs.TrendProofs Proofs.PyLiteBridge Proofs.PyLiteSpline."
+
+
+def vspline_obligations():
+    """verde/vector.py jacobian_2d_numpy / predict_2d_numpy / VectorSpline2D.jacobian / predict / fit against jac2_of /
+    predict2_loop of Model/Trend.v (harness/pylite_vspline.v.tmpl; static lemmas in Proofs/PyLiteSpline.v)"""
+    return tie("VSplineSrc", _VECTOR_PY, VSPLINE_FUNCS, "pylite_vspline.v.tmpl", VSPLINE_THEOREMS, VSPLINE_IMPORTS)
+
+
+def c02_obligations():
+    """least_squares (the solver glue) and VectorSpline2D (what it is given: the stacked data / weights and the block
+    Jacobian); hooked as `obligations = pylite_tie.c02_obligations` in harness/c02.py"""
+    return lsq_obligations() + vspline_obligations()
+
+
 def c03_obligations():
     """verde/trend.py: polynomial_power_combinations (as trend_obligations) and, in the same generated file,
     Trend.predict / Trend.jacobian against trend_predict / trend_jacobian of Model/Trend.v, with the callee
